@@ -425,3 +425,20 @@ func spec_walk(l *LALR1, q int, r int, k int) int { panic("spec") }
 //@ loop 4: invariant len(row) == len(lalr.G.Symbols)
 //@ loop 4: invariant forall a int :: 0 <= a && a < len(row) ==> cellOK(lalr, q, a, row[a]) && row[a] != 0
 //@ loop 4: invariant 0 < len(row) ==> row[0] == len(lalr.G.LR0.LR0Closure) + 100
+
+// ---------------------------------------------------------------------------------------------
+// C03 / C02: set union used by Digraph. The result extends b (possibly in b's spare capacity) and NEVER shares a's
+// backing array: in Traverse a is the finished set of another node, which must not be written through later.
+//@ def inSet(s []int, n int, v int) = exists i int :: 0 <= i && i < n && s[i] == v
+
+//@ func Union
+//@ props C03 C02
+//@ results c
+//@ ensures [C03,C02] backing(c) == backing(b) || fresh(backing(c))
+//@ ensures [C03] len(c) >= len(b) && (forall i int :: 0 <= i && i < len(b) ==> c[i] == b[i])
+//@ ensures [C03] forall v int :: inSet(c, len(c), v) <==> inSet(a, len(a), v) || inSet(b, len(b), v)
+//@ modifies nothing
+//@ loop 0: invariant backing(c) == backing(b) || fresh(backing(c))
+//@ loop 0: invariant len(c) >= len(b) && (forall i int :: 0 <= i && i < len(b) ==> c[i] == b[i])
+//@ loop 0: invariant forall v int :: inSet(c, len(c), v) <==> inSet(a, idx0, v) || inSet(b, len(b), v)
+//@ loop 1: invariant found == inSet(b, idx1, v)
